@@ -629,6 +629,48 @@ int64_t vf_geo_bfs(H3Index origin, int k, vf_map *dist, H3Index **order) {
     return (int64_t)n;
 }
 
+/* ---------------- whole-resolution graph on geometric adjacency */
+static void rg_collect(uint64_t h, int64_t idx, void *u) {
+    vf_resgraph *g = u;
+    g->cells[idx] = h;
+}
+int vf_resgraph_build(vf_resgraph *g, int res) {
+    g->res = res;
+    g->n = (int32_t)ref_num_cells(res);
+    g->cells = malloc((size_t)g->n * 8);
+    g->adj = malloc((size_t)g->n * 6 * sizeof(int32_t));
+    vf_map_init(&g->index, (size_t)g->n);
+    ref_enum_res(res, 0, rg_collect, g);
+    for (int32_t i = 0; i < g->n; i++) vf_map_put(&g->index, g->cells[i], i, NULL);
+    for (int32_t i = 0; i < g->n; i++) {
+        H3Index nb[MAX_CELL_BNDRY_VERTS];
+        int m = vf_geo_neighbors(g->cells[i], nb);
+        if (m < 0 || m > 6) return -1;
+        for (int k = 0; k < 6; k++) {
+            int64_t *ix = k < m ? vf_map_get(&g->index, nb[k]) : NULL;
+            if (k < m && !ix) return -1;
+            g->adj[(size_t)i * 6 + k] = ix ? (int32_t)*ix : -1;
+        }
+    }
+    return 0;
+}
+void vf_resgraph_bfs(const vf_resgraph *g, int32_t src, int16_t *dist, int32_t *queue) {
+    for (int32_t i = 0; i < g->n; i++) dist[i] = -1;
+    int32_t head = 0, tail = 0;
+    dist[src] = 0;
+    queue[tail++] = src;
+    while (head < tail) {
+        int32_t u = queue[head++];
+        for (int k = 0; k < 6; k++) {
+            int32_t v = g->adj[(size_t)u * 6 + k];
+            if (v >= 0 && dist[v] < 0) {
+                dist[v] = (int16_t)(dist[u] + 1);
+                queue[tail++] = v;
+            }
+        }
+    }
+}
+
 /* ================================================================== generators */
 V3 VF_ICO_V[12];
 V3 VF_ICO_F[20];
